@@ -29,7 +29,8 @@ type c14Spec struct {
 	N     int      `json:"n"`
 	T     [][2]int `json:"t"`
 	Defer bool     `json:"defer"`
-	Loop  bool     `json:"loopwrap"` // wrap the whole body in a for-range loop with break/continue targets
+	Loop  bool     `json:"loopwrap"`        // wrap the whole body in a for-range loop with break/continue targets
+	Order []int    `json:"order,omitempty"` // textual order of the blocks (block 0 always first); nil = index order
 }
 
 func (s c14Spec) source(name string) string {
@@ -46,7 +47,13 @@ func (s c14Spec) source(name string) string {
 	if s.Defer {
 		b.WriteString("\tdefer func() { recover() }()\n")
 	}
-	for i := 0; i < s.N; i++ {
+	order := s.Order
+	if order == nil {
+		for i := 0; i < s.N; i++ {
+			order = append(order, i)
+		}
+	}
+	for _, i := range order {
 		if targeted[i] {
 			fmt.Fprintf(&b, "L%d:\n", i)
 		}
@@ -84,6 +91,35 @@ func c14Specs(n int) []c14Spec {
 			c /= k
 		}
 		out = append(out, s)
+	}
+	return out
+}
+
+// c14Orders returns every permutation of 0..n-1 that keeps 0 first, except the identity.
+func c14Orders(n int) [][]int {
+	var out [][]int
+	var rec func(cur []int, used int)
+	rec = func(cur []int, used int) {
+		if len(cur) == n {
+			id := true
+			for i, v := range cur {
+				if v != i {
+					id = false
+				}
+			}
+			if !id {
+				out = append(out, append([]int(nil), cur...))
+			}
+			return
+		}
+		for v := 1; v < n; v++ {
+			if used&(1<<v) == 0 {
+				rec(append(cur, v), used|1<<v)
+			}
+		}
+	}
+	if n > 0 {
+		rec([]int{0}, 1)
 	}
 	return out
 }
@@ -171,6 +207,13 @@ func TestVerifC14Builder(t *testing.T) {
 			s2 := s
 			s2.Defer = true
 			all = append(all, s2)
+			// every other textual order of the blocks: labels first mentioned out of control-flow
+			// order make block indices and depth-first order disagree
+			for _, ord := range c14Orders(n) {
+				s3 := s
+				s3.Order = ord
+				all = append(all, s3)
+			}
 		}
 	}
 	res.Sample(map[string]any{"kind": "spec", "spec": all[len(all)/2], "source": all[len(all)/2].source("f")})
